@@ -20,12 +20,19 @@ RULE = ("one case = (program of array operations from a small ragged list = TLC 
 ALL_OPS = ["rows", "cols", "concat", "concat1", "copy", "row", "col", "eq", "streq", "streq2", "rslice", "decode", "ravel", "setrow", "setmask"]
 
 
+_BRACKETS = []
+
+
 def _encodings():
     import bionumpy as bnp
     from bionumpy.encodings.alphabet_encoding import ACGTnEncoding, AminoAcidEncoding
     # "ascii-wide": ASCII text whose codes are held in a 64-bit integer array (EncodedArray(np.array([ord(c) ...]), BaseEncoding), the
     # construction the class docstring shows), not in bytes
-    return [("ascii", None, "xy"), ("ascii-wide", "wide", "xy"), ("DNA", bnp.DNAEncoding, "AG"), ("DNA2", bnp.DNAEncoding, "TC"), ("ACGTN", ACGTnEncoding, "NA"), ("amino", AminoAcidEncoding, "W*")]
+    if not _BRACKETS:
+        from bionumpy.encodings.alphabet_encoding import AlphabetEncoding
+        _BRACKETS.append(AlphabetEncoding("()[]{}"))      # a user-defined alphabet of symbols: '[' and '{' lie 32 apart like a letter and its lower case
+    return [("ascii", None, "xy"), ("ascii-wide", "wide", "xy"), ("DNA", bnp.DNAEncoding, "AG"), ("DNA2", bnp.DNAEncoding, "TC"), ("ACGTN", ACGTnEncoding, "NA"), ("amino", AminoAcidEncoding, "W*"),
+            ("brackets", _BRACKETS[0], "{[")]
 
 
 def _create(texts, enc):
